@@ -111,6 +111,8 @@ pub mod h_modes;
 pub mod h_attach;
 #[cfg(any(all(kani, feature = "k_q"), all(not(kani), feature = "k_native")))]
 pub mod h_recv;
+#[cfg(any(all(kani, feature = "k_q"), all(not(kani), feature = "k_native")))]
+pub mod h_err;
 #[cfg(any(all(kani, feature = "k_q", feature = "bigfd"), all(not(kani), feature = "k_native")))]
 pub mod h_many;
 #[cfg(any(all(kani, feature = "k_rec"), all(not(kani), feature = "k_native")))]
@@ -131,6 +133,7 @@ pub fn lookup(name: &str) -> Option<fn()> {
         .or_else(|| h_many::lookup(name))
         .or_else(|| h_sendmany::lookup(name))
         .or_else(|| h_ser::lookup(name))
+        .or_else(|| h_err::lookup(name))
 }
 
 /// compiled once per feature set to warm the dependency cache (vlib/kanirun.py: seed_target)
